@@ -22,6 +22,9 @@ EXPLANATION = (
     "the matching comparison and subtraction/negation are built from addition (R12.4), __eq__ compares like with like "
     "(R12.5). Not decided: float rounding of the results, string parsing of amounts (regex), Length.__imul__."
 )
+TECHNIQUE = (
+    "static analysis (no execution): dispatch-table extraction of every (operator, unit, unit) cell with exact rational unit ratios compared with the CSS absolute-unit table; equality table"
+)
 ASSUMPTIONS = [
     "Unit factors are compared at relative tolerance 2e-6 (the source spells 0.393701 for 1/2.54).",
     "Cells are read for Length-Length operands; str/number operands are converted by Length(...) first (checked structurally).",
